@@ -2,6 +2,8 @@ import Verif.Model.Front.Lexer
 import Verif.Model.Front.DepthGuard
 import Verif.Spec.LineCol
 import Verif.Gen.LexerFacts
+import Verif.Spec.Tokens
+import Verif.Proofs.Lexer
 /-!
 # C37 — Lexing, parsing and checking are total and report in-range positions
 
@@ -12,7 +14,20 @@ modelled: for "all byte strings" they are covered by the direct-oracle stream `p
 -/
 namespace Verif.Properties.C37
 open Verif.Model.Front Verif.Model.Front.Lexer Verif.Spec.LineCol
-open Verif.Gen
+open Verif.Gen Verif.Spec.Tokens
+
+/-! ## The lexer port: contiguity -/
+
+/-- For every byte string (and every token limit): in emission order, every consuming token starts right
+    after the previous consuming token's end (`next.start.offset = prev.end.offset + 1`), the first at offset
+    0.  Error tokens (`TokenError`) mark a position and consume nothing.  This holds for whatever was
+    emitted, also when the token limit stopped the lexer. -/
+theorem tokens_contiguous (limit : Nat) (inp : Bytes) : Contiguous (lexWith limit inp).tokens :=
+  Verif.Proofs.Lexer.lex_contiguous limit inp
+
+/-- non-vacuity: a 6-token input with an error token in the middle (`1.` reports missing fractional digits) -/
+example : ((lex #[120, 32, 49, 46, 32, 121]).tokens.map (fun t => (t.ty, t.startOff, t.endOff))) =
+    [(9, 0, 0), (2, 1, 1), (0, 3, 3), (8, 2, 3), (2, 4, 4), (9, 5, 5)] := by decide
 
 /-! ## FX: the pooled lexer object starts in the model's initial state -/
 
